@@ -343,7 +343,7 @@ def main(args: Any) -> int:
         print(f"{flag} {r['property']} [{r['kind']}] {r['variant']}{extra}")
     s = summarise(res)
     print(f"selftest: {s['summary']} in {round(time.time() - t0, 1)}s")
-    out = os.path.join(os.path.dirname(os.path.dirname(os.path.abspath(__file__))), "evidence", "selftest.json")
+    out = os.path.join(os.path.dirname(os.path.dirname(os.path.abspath(__file__))), "selfcheck", "selftest.json")
     if not getattr(args, "no_write", False):
         os.makedirs(os.path.dirname(out), exist_ok=True)
         with open(out, "w") as f:
@@ -470,8 +470,9 @@ def rename_main(args: Any) -> int:
     for r in und:
         print(f"undecided   {r['property']} rename {r['local']} in {r['fn']}")
     print(f"renamefuzz: {len(res)} renames, ok {sum(1 for r in res if r['result'] == 'ok')}, undecided {len(und)}, false alarms {len(bad)}, skipped {sum(1 for r in res if r['result'] == 'skipped')} in {round(time.time() - t0, 1)}s")
-    out = os.path.join(os.path.dirname(os.path.dirname(os.path.abspath(__file__))), "evidence", "renamefuzz.json")
+    out = os.path.join(os.path.dirname(os.path.dirname(os.path.abspath(__file__))), "selfcheck", "renamefuzz.json")
     if not getattr(args, "no_write", False):
+        os.makedirs(os.path.dirname(out), exist_ok=True)
         with open(out, "w") as f:
             json.dump({"renames": len(res), "false_alarms": bad, "undecided": und}, f, indent=1)
     return 0 if not bad else 2
